@@ -71,39 +71,49 @@ Definition value_is (t : token) (c : N) : bool :=
 Definition guard (flag : bool) (t : token) : bool := negb flag || is_general t.
 
 (* ---- _get_branches ---------------------------------------------------------
-   stack: the bracket stack (innermost first); cur: the branch being filled;
-   done: completed branches.  Returns (branches, remaining tokens). *)
-Fixpoint get_branches (ts : list token) (stack : list N) (cur : list token)
-         (done : list (list token)) : list (list token) * list token :=
+   The loop `while tokens and bracket_stack` as a scan: state = the bracket stack
+   (innermost first), the branch being filled and the completed branches.
+   `gb_step` is one iteration on a non-empty stack `top :: below`. *)
+Definition gb_step (t : token) (top : N) (below : list N) (cur : list token)
+           (done : list (list token)) : list N * list token * list (list token) :=
+  let stack := top :: below in
+  if guard gb_open_kind_guarded t && value_in t openers then
+    match tv t with
+    | [c] => match lookup_open c structure_info with
+             | Some (_, cl) => (cl :: stack, cur ++ [t], done)
+             | None => (stack, cur ++ [t], done)
+             end
+    | _ => (stack, cur ++ [t], done)
+    end
+  else if guard gb_pipe_kind_guarded t && value_is t ch_pipe then
+    match below with
+    | [] => (stack, [], done ++ [cur])
+    | _ => (stack, cur ++ [t], done)
+    end
+  else if guard gb_close_kind_guarded t && value_in t closers then
+    if value_is t top then
+      match below with
+      | [] => (below, cur, done)
+      | _ => (below, cur ++ [t], done)
+      end
+    else (stack, cur, done)          (* a closer that is not the expected one is dropped *)
+  else (stack, cur ++ [t], done).
+
+Fixpoint gb_scan (ts : list token) (stack : list N) (cur : list token)
+         (done : list (list token)) : list N * list token * list (list token) * list token :=
   match stack with
-  | [] => (done ++ [cur], ts)
+  | [] => (stack, cur, done, ts)
   | top :: below =>
       match ts with
-      | [] => (done ++ [cur], [])
-      | t :: r =>
-          if guard gb_open_kind_guarded t && value_in t openers then
-            match tv t with
-            | [c] => match lookup_open c structure_info with
-                     | Some (_, cl) => get_branches r (cl :: stack) (cur ++ [t]) done
-                     | None => get_branches r stack (cur ++ [t]) done
-                     end
-            | _ => get_branches r stack (cur ++ [t]) done
-            end
-          else if guard gb_pipe_kind_guarded t && value_is t ch_pipe then
-            match below with
-            | [] => get_branches r stack [] (done ++ [cur])
-            | _ => get_branches r stack (cur ++ [t]) done
-            end
-          else if guard gb_close_kind_guarded t && value_in t closers then
-            if value_is t top then
-              match below with
-              | [] => get_branches r below cur done
-              | _ => get_branches r below (cur ++ [t]) done
-              end
-            else get_branches r stack cur done
-          else get_branches r stack (cur ++ [t]) done
+      | [] => (stack, cur, done, [])
+      | t :: r => let '(s', c', d') := gb_step t top below cur done in gb_scan r s' c' d'
       end
   end.
+
+(* (branches, remaining tokens) *)
+Definition get_branches (ts : list token) (stack : list N) (cur : list token)
+           (done : list (list token)) : list (list token) * list token :=
+  let '(_, c, d, r) := gb_scan ts stack cur done in (d ++ [c], r).
 
 (* ---- name helpers ----------------------------------------------------------- *)
 Definition concat_values (ts : list token) : str := flat_map tv ts.
